@@ -91,9 +91,13 @@ def main():
     ap.add_argument("--jobs", type=int, default=4)
     ap.add_argument("--only", default="")
     ap.add_argument("--kind", default="mutants,seeded,reverts,clean")
+    ap.add_argument("--names", default="", help="file with one job name per line: run only these")
     a = ap.parse_args()
     only = {x.strip().upper() for x in a.only.split(",") if x.strip()}
     jobs = jobs_list(only, set(a.kind.split(",")))
+    if a.names:
+        wanted = {l.strip() for l in open(a.names) if l.strip()}
+        jobs = [j for j in jobs if j["name"] in wanted]
     os.makedirs(ROOT, exist_ok=True)
     n = max(1, min(a.jobs, len(jobs)))
     for s in range(n):
